@@ -129,7 +129,7 @@ type linFuncResult struct {
 	fieldMust map[*types.Var]bool
 	selfMust  bool
 	partial   []*fakeHandle
-	owners map[string]int // types stored into (for the owner table)
+	owners    map[string]int // types stored into (for the owner table)
 }
 
 type linAnalysis struct {
